@@ -125,6 +125,10 @@ class C08Machine(RecordingMixin, RuleBasedStateMachine):
             self.circs[len(name) % 6] = c
         self.info_labels.add("single-group-circuit")
 
+    def do_trim(self, k):
+        del self.circs[:k]
+        self.arg_uses = {}
+
     def do_state(self, occ):
         import lightworks as lw
         if len(self.states) < 4:
@@ -405,6 +409,25 @@ class C08Machine(RecordingMixin, RuleBasedStateMachine):
         j = len(self.circs) - 1
         self.step("rewrite", i=j, which="unpack")
         self.step("edit", i=j, op=op)
+
+    @rule(prog=gen.flat_program(min_n=2, max_n=3, max_ops=3, lossy=False), child=gen.heralded_child(max_k=3, depth=0),
+          pos=st.integers(0, 4), pos2=st.integers(0, 4), group=st.booleans())
+    def r_group_copy_add_heralded(self, prog, child, pos, pos2, group):
+        """a circuit holding a group -> copy -> a heralded sub-circuit is added to the copy (its ancilla is inserted
+        below / inside / above the group): the original and the heralded argument are bystanders"""
+        n = prog["n"] + 1
+        wrapped = {"n": n, "ops": [["add", prog, pos % 2, True, "g"]]}
+        if len(self.circs) > 3:
+            self.step("trim", k=2)      # keep room in the pool for the three circuits of this scenario
+        self.step("new", prog=wrapped)
+        a = len(self.circs) - 1
+        self.step("copy", i=a, freeze=False)
+        b = len(self.circs) - 1
+        self.step("new", prog=child)
+        c = len(self.circs) - 1
+        if len({a, b, c}) == 3:
+            self.step("add", parent=b, child=c, pos=pos2, group=group)
+            self.step("add", parent=b, child=a, pos=pos, group=False)
 
     @rule(i=IDX)
     def r_scribble(self, i):
